@@ -347,7 +347,7 @@ def _iso8583_to_field(bit, bit_config, message_data, encoding=DEFAULT_ENCODING):
     # do field conversion to native python type
     try:
         field_data = _string_to_pytype(field_data, bit_config)
-    except ValueError as ex:
+    except (ValueError, decimal.InvalidOperation) as ex:
         raise Iso8583DataError(f'Unable to convert DE{bit} field to python type',
                                binary_context_data=message_data, original_exception=ex)
     return_values = dict()
